@@ -332,6 +332,33 @@ BORROWED = [_borrowed("c04", "r1_typestate"), _borrowed("c04", "r6_single_writer
 
 
 
+
+def r5_token_is_not_duplicated_by_the_connection(ctx):
+    """graceful shutdown waits until every clone of the pending-call sender is gone (`pending_calls_completed.recv()`
+    yields None). The function that creates the channel for a connection therefore gives its sender away - into the
+    service configuration - and keeps no clone of it: a clone held by the connection future itself (for a log line, a
+    counter) is never dropped while that future waits for the drain, so the wait never ends and stop() hangs."""
+    F, R = ctx.F, ctx.R
+    n = 0
+    for b in F.real_bodies():
+        if b.crate != SERVER or is_test_body(b):
+            continue
+        if not b.calls_to(r"middleware::rpc::RpcService::new$"):
+            continue   # only the functions that build a connection's service hold the pending-call channel
+        for ch in b.calls_to(r"mpsc::channel$"):
+            if not (ch.ga and ch.ga[0] == "()") or ch.dest is None:
+                continue
+            n += 1
+            R.fn(b)
+            senders = set()
+            for l, loc in enumerate(b.locals):
+                if re.search(r"mpsc::(bounded::)?Sender<\(\)>$", loc["ty"].lstrip("&").replace("mut ", "")):
+                    senders.add(l)
+            clones = [c for c in b.calls_to(r"Clone>?::clone$|Sender::<.*>::(clone|downgrade)$") if c.args and op_place(c.args[0]) is not None and (flow._local_copies_back(b, op_place(c.args[0])["l"], 6) & senders) and c.dest is not None and "Sender<()>" in b.locals[c.dest["l"]]["ty"]]
+            R.check(not clones, "C10.R5", "%s:token-not-cloned" % fkey(b), "the connection gives the pending-call sender away and keeps no clone", "%s clones the pending-call sender it created: the clone lives as long as the connection future, which is exactly what waits for all senders to be dropped - after stop() the drain never completes and stopped() never resolves while a client stays connected" % short(b.path), where(clones[0]) if clones else None)
+    R.floor("C10.R5", n, 2, "pending-call channels created per connection")
+
+
 def rloop_event_loops_keep_polling(ctx):
     """a stop request is seen only by a loop that is polling for it: the accept loop and the connection loop suspend only
     at vetted points, each of which races the stop signal (= C11.LOOP)"""
@@ -345,7 +372,7 @@ def rspawn_vetted_spawn_sites(ctx):
     vetted_spawns(ctx, "C10.SPAWN")
 
 
-RULES = [r1_who_keeps_stopped_pending, r2_service_handle, r3_writer_stops_last, r4_http_stop_arm, rspawn_vetted_spawn_sites, rloop_event_loops_keep_polling] + BORROWED
+RULES = [r1_who_keeps_stopped_pending, r2_service_handle, r3_writer_stops_last, r4_http_stop_arm, rspawn_vetted_spawn_sites, rloop_event_loops_keep_polling, r5_token_is_not_duplicated_by_the_connection] + BORROWED
 
 LEVEL_TEXT = (
     "Only the ownership / ordering skeleton of graceful stop is decided (the statement quantifies over schedules): which "
